@@ -422,7 +422,10 @@ impl Prop for Accessor {
         cfg.enums = false;
         cfg.ext_vals = false;
         cfg.singletons = false;
-        let (prog, _, _) = gen_prog(t, cfg);
+        let (mut prog, _, _) = gen_prog(t, cfg);
+        if t.chance(1, 5) {
+            name_member_vftable(t, &mut prog);
+        }
         Case { prog, seed: t.u64() }
     }
     fn judge(&self, c: &Case) -> Outcome {
